@@ -175,10 +175,16 @@ func judge(c Case) string {
 	file := "index." + c.Ext
 	src := c.source()
 	res := sg.Render(map[string]string{file: src}, file, sg.Opts{})
-	if res.BuildErr != nil || res.BuildPanic != nil {
-		ev.Excluded("does_not_build")
-		ev.Note("does not build: %v :: %q", res.Describe(), src)
-		return ""
+	if res.BuildPanic != nil {
+		return fmt.Sprintf("build panic: %v\n template: %q", res.BuildPanic, src)
+	}
+	if res.BuildErr != nil {
+		if strings.Contains(res.BuildErr.Error(), "cannot use raw in") {
+			ev.Excluded("raw_inside_markdown_code_block") // documented restriction, the generator does not track Markdown code blocks
+			return ""
+		}
+		// every other generated template is valid: failing to build it loses all of its text
+		return fmt.Sprintf("a valid template does not build: %v\n template: %q", res.BuildErr, src)
 	}
 	if d := res.Describe(); d != "" {
 		return "run failed: " + d
